@@ -1,0 +1,31 @@
+// Copyright (c) 2026, Daniel Martí <mvdan@mvdan.cc>
+// See LICENSE for licensing information
+
+//go:build !verif
+
+package interp
+
+import "os"
+
+// The functions below are hooks for the deterministic simulation harness
+// built with the "verif" build tag; see verif_on.go.
+// Without the tag they do nothing and are trivially inlined.
+
+func verifYield(point string) {}
+
+func verifSpawn() uint64 { return 0 }
+
+func verifStart(tok uint64) {}
+
+func verifEnd() {}
+
+func verifActive() bool { return false }
+
+func verifMkfifo(path string) (handled bool, err error) { return false, nil }
+
+func verifOpenFifo(path string, flag int) (*os.File, error) { return nil, nil }
+
+// openFifo opens a named pipe created by the interpreter itself.
+func openFifo(path string, flag int) (*os.File, error) {
+	return os.OpenFile(path, flag, 0)
+}
